@@ -423,6 +423,29 @@ def t_conn_excl_cond2():
     return g.set_start_nodes({r}), dict(sel=[c1, c2], conn=[cc], src=s, tgt=t)
 
 
+def _conn_rep_pair(rep):
+    B, N, CN, *_ = _imp()
+    g = B()
+    r = N('R')
+    a = [N('A0'), N('A1')]
+    s = [CN('S0', deg_list=[1, 2], repeated_allowed=rep), CN('S1', deg_spec='?')]
+    t = [CN('T0', deg_spec='*', repeated_allowed=True), CN('T1', deg_spec='?', repeated_allowed=True)]
+    c1 = g.add_selection_choice('C1', r, a)
+    g.add_edges([(r, s[0]), (a[1], s[1]), (r, t[0]), (r, t[1])])
+    cc = g.add_connection_choice('K', s, t)
+    return g.set_start_nodes({r}), dict(sel=[c1], conn=[cc], src=s, tgt=t)
+
+
+def t_conn_rep_a():
+    """two models that differ only in whether a source accepts repeated connections (evaluated one after the other
+    in the same process and cache directory by C11's `scenario_pair`)"""
+    return _conn_rep_pair(True)
+
+
+def t_conn_rep_b():
+    return _conn_rep_pair(False)
+
+
 def t_conn_two():
     B, N, CN, *_ = _imp()
     g = B()
@@ -464,7 +487,7 @@ TEMPLATES = {
     'conn_excl_shift': t_conn_excl_shift, 'conn_two_infeasible': t_conn_two_infeasible,
     'conn_group_no_counterpart': t_conn_group_no_counterpart, 'conn_cond_choice': t_conn_cond_choice,
     'conn_group_tgt': t_conn_group_tgt, 'conn_group3': t_conn_group3, 'conn_chain': t_conn_chain,
-    'conn_excl_cond2': t_conn_excl_cond2,
+    'conn_excl_cond2': t_conn_excl_cond2, 'conn_rep_a': t_conn_rep_a, 'conn_rep_b': t_conn_rep_b,
 }
 CONN_TEMPLATES = [k for k in TEMPLATES if k.startswith('conn_')]
 NO_CONN_TEMPLATES = [k for k in TEMPLATES if not k.startswith('conn_')]
